@@ -41,7 +41,7 @@ def backslash_only_line(replay):
     """F13: the input has a physical line that consists of white space and a backslash continuation only,
     and removing those lines' backslash-newline makes the failure go away"""
     text = _text(replay)
-    pat = r'(?m)^([ \t\f]*)\\\r?\n[ \t\f]*'
+    pat = r'(?:(?<=\n)|(?<=\r)|^)([ \t\f]*)\\(?:\r\n|\n|\r)[ \t\f]*'   # any of the three line ends, also after a lone CR
     if not re.search(pat, text):
         return False
     fixed = re.sub(pat, lambda m: m.group(1), text)
